@@ -117,10 +117,11 @@ def localNameOK (name : Str) : Bool :=
 /-- GetRelativePath of the local factory, then entry.GetPath -/
 def localPath (dir name : Str) : Str := join [dir, join [name, dataName]]
 
-def isHexLower (c : Char) : Bool := ('0' ≤ c && c ≤ '9') || ('a' ≤ c && c ≤ 'f')
+/-- a character `hex.DecodeString` accepts (both cases) -/
+def isHex (c : Char) : Bool := ('0' ≤ c && c ≤ '9') || ('a' ≤ c && c ≤ 'f') || ('A' ≤ c && c ≤ 'F')
 
-/-- core.ValidateSHA256 -/
-def validSHA256 (s : Str) : Bool := s.length == 64 && s.all isHexLower
+/-- core.ValidateSHA256: 64 characters that hex.DecodeString accepts (upper case included) -/
+def validSHA256 (s : Str) : Bool := s.length == 64 && s.all isHex
 
 /-- casFileEntryFactory.GetRelativePath (DefaultShardIDLength = 2), then entry.GetPath -/
 def casRelPath (name : Str) : Str :=
